@@ -5,6 +5,7 @@ import (
 	"fmt"
 	"os"
 	"sort"
+	"testing"
 )
 
 // One run = one generated case with all its executions. The worker writes one
@@ -56,6 +57,7 @@ type RunCtx struct {
 
 	Rec        *RunRecord
 	WantSample bool
+	T          testing.TB
 	digest     uint64
 	execSeed   uint64
 }
